@@ -189,6 +189,9 @@ func (sn *SimNet) Dial(network, addr string) (net.Conn, error) {
 	if onLink != nil {
 		onLink(lk)
 	}
+	if netlog {
+		sn.e.Logf("net: link %d dialled to %s", lk.ID, addr)
+	}
 	return lk.ep[0], nil
 }
 
@@ -366,6 +369,9 @@ func (ep *endpoint) Close() error {
 		return nil
 	}
 	ep.closed = true
+	if netlog {
+		lk.sn.e.Logf("net: link %d closed by side %d", lk.ID, ep.side)
+	}
 	d := &lk.dir[ep.side]
 	d.fin = true
 	// the peer's writes now fail, its reads see what is already delivered and then EOF
@@ -619,6 +625,9 @@ func (sn *SimNet) SetLatency(min, jitter time.Duration) {
 	sn.MinLatency, sn.Jitter = min, jitter
 	sn.mu.Unlock()
 }
+
+// netlog (VERIF_NETLOG=1): link events in the history of a run, for debugging replays
+var netlog = os.Getenv("VERIF_NETLOG") != ""
 
 var simCert struct {
 	once sync.Once
